@@ -150,6 +150,126 @@ def _nonempty(r):
     return r
 
 
+def _pairing_by_abstract_run(make, P, S, codes):
+    """-> set of (prefix kind, suffix kind, code list empty?) at the returns, kinds 'E' (empty string) / 'N' (non-empty); None when a
+    statement touches one of the three variables in a way that is not modelled.  States: (codes_empty, p, s); tests on the code
+    list refine, every other test goes both ways."""
+    class Und(Exception):
+        pass
+
+    def kind(v, st):
+        if isinstance(v, ast.Constant) and isinstance(v.value, (str, bytes)):
+            return "E" if len(v.value) == 0 else "N"
+        if isinstance(v, ast.BinOp) and isinstance(v.op, ast.Add):
+            ks = [kind(v.left, st), kind(v.right, st)]
+            return "N" if "N" in ks else "E"
+        if isinstance(v, ast.Call) and isinstance(v.func, ast.Attribute) and v.func.attr == "join":
+            return "E"          # at least: may be empty; with a constant neighbour the sum is 'N' anyway
+        if isinstance(v, ast.Call) and isinstance(v.func, ast.Attribute) and v.func.attr in ("encode", "decode") and isinstance(v.func.value, ast.Name) and v.func.value.id in (P, S):
+            return st[1] if v.func.value.id == P else st[2]
+        if isinstance(v, ast.Name) and v.id in (P, S):
+            return st[1] if v.id == P else st[2]
+        if isinstance(v, ast.JoinedStr):
+            return "N" if any(isinstance(x, ast.Constant) and x.value for x in v.values) else "E"
+        raise Und()
+
+    def test(t, st):
+        """[(truth, refined state)]"""
+        neg = False
+        while isinstance(t, ast.UnaryOp) and isinstance(t.op, ast.Not):
+            t, neg = t.operand, not neg
+        if is_name(t, codes):
+            outs = []
+            if st[0] in (False, None):
+                outs.append((True, (False, st[1], st[2])))
+            if st[0] in (True, None):
+                outs.append((False, (True, st[1], st[2])))
+            return [(tv != neg, s_) for tv, s_ in outs]
+        if is_name(t, P) or is_name(t, S):
+            k = st[1] if is_name(t, P) else st[2]
+            return [((k == "N") != neg, st)]
+        return [(True, st), (False, st)]
+
+    def run(stmts, states):
+        """-> (fall-through states, returned states)"""
+        rets = set()
+        for s_ in stmts:
+            nxt = set()
+            for st in states:
+                if isinstance(s_, ast.Assign) and len(s_.targets) == 1:
+                    t = s_.targets[0]
+                    names = [x.id for x in ast.walk(t) if isinstance(x, ast.Name)]
+                    if is_name(t, P):
+                        nxt.add((st[0], kind(s_.value, st), st[2]))
+                    elif is_name(t, S):
+                        nxt.add((st[0], st[1], kind(s_.value, st)))
+                    elif is_name(t, codes):
+                        if isinstance(s_.value, ast.List):
+                            nxt.add((not s_.value.elts, st[1], st[2]))
+                        else:
+                            raise Und()
+                    elif isinstance(t, ast.Tuple) and isinstance(s_.value, ast.Tuple) and len(t.elts) == len(s_.value.elts) and any(n_ in (P, S) for n_ in names):
+                        p_, s2_ = st[1], st[2]
+                        for x_, y_ in zip(t.elts, s_.value.elts):
+                            if is_name(x_, P):
+                                p_ = kind(y_, st)
+                            elif is_name(x_, S):
+                                s2_ = kind(y_, st)
+                        nxt.add((st[0], p_, s2_))
+                    elif any(n_ in (P, S, codes) for n_ in names):
+                        raise Und()
+                    else:
+                        nxt.add(st)
+                elif isinstance(s_, ast.AugAssign) and isinstance(s_.target, ast.Name) and s_.target.id in (P, S, codes):
+                    if s_.target.id == codes:
+                        nxt.add((None if st[0] else False, st[1], st[2]))      # += may add nothing
+                    else:
+                        raise Und()
+                elif isinstance(s_, ast.Expr) and isinstance(s_.value, ast.Call) and isinstance(s_.value.func, ast.Attribute) and is_name(s_.value.func.value, codes):
+                    m_ = s_.value.func.attr
+                    if m_ in ("append", "insert"):
+                        nxt.add((False, st[1], st[2]))
+                    elif m_ == "extend":
+                        a_ = s_.value.args[0] if s_.value.args else None
+                        certain = isinstance(a_, (ast.List, ast.Tuple)) and a_.elts
+                        nxt.add((False if certain or st[0] is False else None, st[1], st[2]))
+                    else:
+                        raise Und()
+                elif isinstance(s_, ast.If):
+                    for tv, st2 in test(s_.test, st):
+                        f_, r_ = run(s_.body if tv else s_.orelse, {st2})
+                        nxt |= f_
+                        rets |= r_
+                elif isinstance(s_, ast.Return):
+                    rets.add(st)
+                elif isinstance(s_, (ast.Raise,)):
+                    pass
+                elif isinstance(s_, (ast.For, ast.While)):
+                    # a loop: zero or more passes; the body may only grow the code list
+                    f_, r_ = run(s_.body, {st})
+                    if r_:
+                        raise Und()
+                    nxt.add(st)
+                    nxt |= {(None if (x_[0] is False and st[0]) else x_[0], x_[1], x_[2]) for x_ in f_}
+                elif isinstance(s_, (ast.Expr, ast.Assert, ast.Pass)):
+                    if any(isinstance(x_, ast.Name) and x_.id in (P, S, codes) and isinstance(getattr(x_, "ctx", None), ast.Store) for x_ in ast.walk(s_)):
+                        raise Und()
+                    nxt.add(st)
+                else:
+                    raise Und()
+            states = nxt
+            if not states:
+                break
+        return states, rets
+    try:
+        fall, rets = run([s_ for s_ in make.body if not (isinstance(s_, ast.Expr) and isinstance(s_.value, ast.Constant))], {(None, "E", "E")})
+    except Und:
+        return None
+    if fall:
+        return None
+    return {(p_, s_, c_) for c_, p_, s_ in rets}
+
+
 def _check_make(cx, make, elem, sh):
     rets = [n for n in walk_local(make) if isinstance(n, ast.Return)]
     cx.need(len(rets) == 1 and isinstance(rets[0].value, ast.Tuple) and len(rets[0].value.elts) == 2 and
@@ -171,6 +291,19 @@ def _check_make(cx, make, elem, sh):
     for st, v in assignments(make, S):
         blocks.setdefault(id(_block_of(st)[2]), {"P": [], "S": []})["S"].append((st, v))
     n_pairs = 0
+    if any(len(b["P"]) != 1 or len(b["S"]) != 1 for b in blocks.values()):
+        # prefix and suffix are not set side by side: decided by a small abstract run of make() instead - the code list as
+        # empty / non-empty, prefix and suffix as empty / non-empty strings; at the return both must be empty or both not
+        verdict = _pairing_by_abstract_run(make, P, S, codes)
+        if verdict is None:
+            raise AnalysisError("R09b", f"{REL}::_ColorSequences.make", "prefix and suffix are set in different places and the pairing could not be decided")
+        bad = [v for v in verdict if v[0] != v[1]]
+        cx.ob("R09b", rets[0], not bad, "on every path prefix and suffix are both empty or both set" if not bad else
+              "a path returns " + ("an escape prefix with an empty suffix (colour bleeds into the following text)" if bad[0][0] == "N" else
+                                   "an empty prefix with a reset suffix (a lone `ESC[0m` is emitted: no_color / plain text is not free of escape characters)") +
+              f"; reached with the code list {'non-empty' if bad[0][2] is False else 'empty' if bad[0][2] else 'of either kind'}", stmt="prefix / suffix pairing", semantic=True)
+        cx.counts["R09b:abstract states at return"] = len(verdict)
+        return
     for b in blocks.values():
         ps, ss = b["P"], b["S"]
         anchor = (ps or ss)[0][0]
